@@ -2,6 +2,7 @@ import AvoVerif.Drv.Common
 import AvoVerif.Model.Ctx
 import AvoVerif.Props.C18
 import AvoVerif.Gen.Regs
+import AvoVerif.Oracle.TagChars
 /-!
 Protocol handlers for C18.
 
@@ -12,6 +13,12 @@ accept-c18 <observed…> <hdr> <ops…>    → ok | first violated clause
 c18max     <mx> <nerrs>                 → number of diagnostic lines (LogError truncation; not part of the property)
 hdr = route=<ctx|pkg> f3a=<b> f3b=<b> f4=<b> f9=<b> n=<number of ops>
 ```
+Build-constraint terms travel as code points (`78.b2`, `-` = empty) followed by the
+verdict of the installed `go/build/constraint` on that term (`1` = it parses to that
+tag or its negation), the text of `ConstraintExpr` likewise followed by the
+harness' verdict on its fields; the model decides validity itself, with the tag
+character table measured from the toolchain (`Oracle/TagChars.lean`), and a
+disagreement with the live verdict is answered `bad-termclass`.
 The header flags mark histories that touch a listed finding; they are recomputed
 here from the ops and a wrong flag is answered `bad-flags`.
 -/
@@ -80,6 +87,7 @@ def kind? (s : String) : Option (Option Nat) :=
 def parseOpnd (t : String) : Option Opnd :=
   match t.splitOn ":" with
   | ["i"] => some .imm
+  | ["nil"] => some .imm   -- a nil operand: matches no form (the request is then `ins 0 …`, operands unused)
   | ["r", k] => k.toNat?.map .reg
   | ["l", n] => some (.lbl n)
   | ["m", b, x, s] => do
@@ -100,14 +108,30 @@ def parseInstr (ts : List String) : Option (Instr × List String) :=
     pure (⟨b, ik, ops⟩, rest)
   | [] => none
 
-def termTok : List String → Option (List Char × List String)
-  | t :: ts => (unhexStr t).map (fun s => (s.toList, ts))
-  | [] => none
-
-def optionTok (ts : List String) : Option (Option' × List String) := listOf termTok ts
-def constraintTok (ts : List String) : Option (Constraint × List String) := listOf optionTok ts
+/-- The toolchain's tag-character predicate: the table measured on this run. -/
+def tc : Char → Bool := tagCharOf Avo.Oracle.tagRanges
 
 def bool? (s : String) : Option Bool := if s == "1" then some true else if s == "0" then some false else none
+
+def hexNat? (s : String) : Option Nat :=
+  if s.isEmpty then none else
+  s.toList.foldl (fun acc c => do let a ← acc; let d ← hexDigit c; pure (a * 16 + d)) (some 0)
+
+/-- `78.b2` → code points; `-` is the empty text. -/
+def cps? (s : String) : Option (List Char) :=
+  if s == "-" then some [] else (s.splitOn ".").mapM (fun h => (hexNat? h).map Char.ofNat)
+
+/-- a term and whether the model's verdict on it agrees with the live toolchain verdict that follows it -/
+def termTok : List String → Option ((List Char × Bool) × List String)
+  | t :: v :: ts => do
+    let t ← cps? t; let v ← bool? v
+    pure ((t, termValid tc t == v), ts)
+  | _ => none
+
+def optionTok (ts : List String) : Option ((Option' × Bool) × List String) :=
+  (listOf termTok ts).map (fun (xs, r) => ((xs.map (·.1), xs.all (·.2)), r))
+def constraintTok (ts : List String) : Option ((Constraint × Bool) × List String) :=
+  (listOf optionTok ts).map (fun (xs, r) => ((xs.map (·.1), xs.all (·.2)), r))
 
 /-- the builder calls the harness hands a nil argument to -/
 def nilKinds : List String :=
@@ -168,22 +192,32 @@ def parseOp : List String → Option (Op × List String)
   | "datum" :: o :: s :: r => do
     let o ← o.toNat?; let s ← s.toNat?
     pure (.addDatum o s, r)
+  | "datumneg" :: o :: s :: r => do
+    let o ← o.toNat?; let s ← s.toNat?
+    pure (.addDatumNeg o s, r)
   | "app" :: s :: r => s.toNat?.map (fun s => (.appendDatum s, r))
-  | "conss" :: r => (listOf constraintTok r).map (fun (cs, r) => (.constraints cs, r))
-  | "cons" :: r => (constraintTok r).map (fun (k, r) => (.constraint k, r))
-  | "consx" :: r => (constraintTok r).map (fun (k, r) => (.constraintExpr k, r))
   | "press" :: n :: k :: m :: r => do
     let k ← k.toNat?; let m ← m.toNat?
     pure (.pressure n k m, r)
   | _ => none
 
-def parseOps : Nat → List String → Option (List Op)
-  | _, [] => some []
+/-- `parseOp` plus the constraint requests; the flag says whether every toolchain verdict
+carried by the request agrees with the model's. -/
+def parseOpC : List String → Option ((Op × Bool) × List String)
+  | "conss" :: r => (listOf constraintTok r).map (fun (cs, r) => ((.constraints (cs.map (·.1)), cs.all (·.2)), r))
+  | "cons" :: r => (constraintTok r).map (fun ((k, ok), r) => ((.constraint k, ok), r))
+  | "consx" :: t :: v :: r => do
+    let t ← cps? t; let v ← bool? v
+    pure ((.constraintExpr t, constraintValid tc (parseConstraint t) == v), r)
+  | ts => (parseOp ts).map (fun (op, r) => ((op, true), r))
+
+def parseOps : Nat → List String → Option (List Op × Bool)
+  | _, [] => some ([], true)
   | 0, _ => none
   | fuel + 1, ts => do
-    let (op, r) ← parseOp ts
-    let ops ← parseOps fuel r
-    pure (op :: ops)
+    let ((op, ok), r) ← parseOpC ts
+    let (ops, oks) ← parseOps fuel r
+    pure (op :: ops, ok && oks)
 
 structure Hdr where
   f3a : Bool
@@ -249,17 +283,26 @@ def Op.slot? : Op → Option Nat
 
 /-- every component slot a request refers to was handed out before (the model's
 `getComp` is total: an out-of-range slot would silently read as an error component) -/
-def slotsOK (c : Ctx) : List Op → Bool
+def slotsOK (tc : Char → Bool) (c : Ctx) : List Op → Bool
   | [] => true
   | op :: ops =>
     (match Op.slot? op with
      | some s => decide (s < c.comps.length)
-     | none => true) && slotsOK (step c op) ops
+     | none => true) && slotsOK tc (step tc c op) ops
+
+/-- a datum at a negative offset is only issued with an active data section (without one the
+real call records two messages, which the model does not express) -/
+def negOK (tc : Char → Bool) (c : Ctx) : List Op → Bool
+  | [] => true
+  | op :: ops =>
+    (match op with
+     | .addDatumNeg _ _ => c.glob.isSome
+     | _ => true) && negOK tc (step tc c op) ops
 
 def b01 (b : Bool) : String := if b then "1" else "0"
 
 def respond (ops : List Op) : String :=
-  let c := run Ctx.init ops
+  let c := run tc Ctx.init ops
   let fns := c.fns
   let gl := c.globs
   joinSp (["e", toString c.errs.length] ++ c.errs.map ErrClass.tag ++
@@ -268,7 +311,7 @@ def respond (ops : List Op) : String :=
     ["c", toString c.cons.length, "o", String.ofList ('-' :: c.secOrder.map (fun b => if b then 'F' else 'G'))])
 
 def respondMain (ops : List Op) : String :=
-  let c := run Ctx.init ops
+  let c := run tc Ctx.init ops
   let o := main 0 (stdPasses lim c) c
   joinSp ["s", b01 (o.status != 0), "a", b01 (o.printed.contains 1), "t", b01 (o.printed.contains 2),
     "d", toString o.diag]
@@ -315,34 +358,40 @@ def explain (nf na : Nat) (sb : Bool) (pf : List PassErr) (o : Observed) : Strin
 (canonical request → exactly one message); this is the list it must report -/
 def calExpected : String :=
   joinSp (([ErrClass.noFunc, .noGlobal, .badOperands, .unknownVar, .indexRange, .notPrimitive, .notPointer,
-    .noBase, .noLen, .noCap, .noReal, .noImag, .notArray, .arrayBounds, .notStruct, .noField, .movDeduce, .overlap,
+    .noBase, .noLen, .noCap, .noReal, .noImag, .notArray, .arrayBounds, .notStruct, .noField, .movDeduce, .overlap, .negOffset,
     .constraint, .constraint, .constraint, .constraint, .constraint, .noPackage].map ErrClass.tag) ++
    ([PassErr.memBase, .memScale, .dupLabel, .endLabel, .unknownLabel, .alloc, .alloc, .alloc].map PassErr.tag))
 
 def handle : Handler
   | "c18" :: rest => do
     let (h, rest) ← parseHdr rest
-    let ops ← parseOps (rest.length + 1) rest
-    let c := run Ctx.init ops
-    if !slotsOK Ctx.init ops then some "bad-slot" else
+    let (ops, clsOK) ← parseOps (rest.length + 1) rest
+    let c := run tc Ctx.init ops
+    if !clsOK then some "bad-termclass" else
+    if !slotsOK tc Ctx.init ops then some "bad-slot" else
+    if !negOK tc Ctx.init ops then some "bad-negoff-outside-section" else
     if !flagsOK h ops c then some "bad-flags" else
     some (respond ops)
   | "c18main" :: rest => do
     let (h, rest) ← parseHdr rest
-    let ops ← parseOps (rest.length + 1) rest
-    let c := run Ctx.init ops
-    if !slotsOK Ctx.init ops then some "bad-slot" else
+    let (ops, clsOK) ← parseOps (rest.length + 1) rest
+    let c := run tc Ctx.init ops
+    if !clsOK then some "bad-termclass" else
+    if !slotsOK tc Ctx.init ops then some "bad-slot" else
+    if !negOK tc Ctx.init ops then some "bad-negoff-outside-section" else
     if !flagsOK h ops c then some "bad-flags" else
     some (respondMain ops)
   | "accept-c18" :: rest => do
     let (o, rest) ← parseObserved rest
     let (h, rest) ← parseHdr rest
-    let ops ← parseOps (rest.length + 1) rest
-    let c := run Ctx.init ops
-    if !slotsOK Ctx.init ops then some "bad-slot" else
+    let (ops, clsOK) ← parseOps (rest.length + 1) rest
+    let c := run tc Ctx.init ops
+    if !clsOK then some "bad-termclass" else
+    if !slotsOK tc Ctx.init ops then some "bad-slot" else
+    if !negOK tc Ctx.init ops then some "bad-negoff-outside-section" else
     if !flagsOK h ops c then some "bad-flags" else
     -- (faults …).length = numFaults … (theorem faults_length)
-    let nf := (faults Ctx.init ops).length
+    let nf := (faults tc Ctx.init ops).length
     let na := numNil ops
     let sb := stubFails c
     let pf := passFaults lim c.fns
